@@ -429,6 +429,21 @@ func (u *clientUpdater) updateService(ctx context.Context, service ServiceDefini
 	if err != nil {
 		return fmt.Errorf("failed to wipe on testSeed change (service=%s, testSeed=%s): %w", service.ID, seed, err)
 	}
+	if currentTimestamp > 0 {
+		// The presentations were requested relative to currentTimestamp. If the store was wiped, that timestamp belonged to
+		// the previous seed and the response is not the complete list of the new seed: using it would skip all entries
+		// up to currentTimestamp. Start over from timestamp 0 on the next update instead.
+		newTimestamp, err := u.store.getTimestamp(service.ID)
+		if err != nil {
+			return err
+		}
+		if newTimestamp == 0 {
+			log.Logger().
+				WithField("discoveryService", service.ID).
+				Debug("Local copy of Discovery Service was reset, loading the complete list on the next update")
+			return nil
+		}
+	}
 	for _, presentation := range presentations {
 		// Check if the presentation already exists
 		credentialSubjectID, err := credential.PresentationSigner(presentation)
